@@ -375,6 +375,12 @@ inline bool do_decode_resize(std::vector<T>& v, const uint8_t*& pos, const uint8
     {
         return false;
     }
+    /// each element takes at least one byte (its full size if fixed) of the remaining input
+    enum { min_element_size = (codec_traits<T>::size > 0) ? int(codec_traits<T>::size) : 1 };
+    if (size_t(n) > size_t(end - pos) / min_element_size)
+    {
+        return false;
+    }
     v.resize(n);
     return true;
 }
